@@ -326,7 +326,7 @@ def conn_cases(rng, tier):
             n = len(rp[ae][1])
             keys = key_headers(n)
             for pname, pre in PREFIXES:
-                if pname == "warm-post" and POST not in methods_of(cfg):
+                if (pname == "warm-post" and POST not in methods_of(cfg)) or (pname == "warm-head" and HEAD not in methods_of(cfg)):
                     continue
                 # short histories: prefix + ONE ranged request (shortest replay when something breaks)
                 if quick:
@@ -341,7 +341,8 @@ def conn_cases(rng, tier):
                                       "nochk" if rng.random() < 0.2 else "dev"))
             # long histories: any prefix, then several requests mixing methods, encodings, header kinds, conditions
             for _ in range(1 if quick else 6):
-                pname, pre = rng.choice(PREFIXES[:-1] if POST not in methods_of(cfg) else PREFIXES)
+                pname, pre = rng.choice([pp for pp in PREFIXES if (pp[0] != "warm-post" or POST in methods_of(cfg))
+                                         and (pp[0] != "warm-head" or HEAD in methods_of(cfg))])
                 reqs = list(pre(ae))
                 for _ in range(rng.randrange(3, 7)):
                     ae2 = rng.choice((ae, ae, AE_NONE, AE_GZIP, AE_IDENTITY, AE_BR, AE_ZSTD, AE_DEFLATE))
@@ -565,7 +566,7 @@ def directed(rng, mismatches):
     for p in pages:
         for ae in (AE_NONE, AE_GZIP):
             for pname, pre in PREFIXES:
-                if pname == "warm-post" and POST not in methods_of(p[0]):
+                if (pname == "warm-post" and POST not in methods_of(p[0])) or (pname == "warm-head" and HEAD not in methods_of(p[0])):
                     continue
                 for h in key_headers(len(reprs[p][ae][1])):
                     for m in set(methods_of(p[0])):
